@@ -950,7 +950,8 @@ where
 
 impl<Octs: AsRef<[u8]>> NlriCompose for Ipv4RouteTargetNlri<Octs> {
     fn compose_len(&self) -> usize {
-        self.nlri().compose_len()
+        // 1 byte for the length itself
+        1 + self.nlri().compose_len()
     }
 
     fn compose<Target: OctetsBuilder>(&self, target: &mut Target)
